@@ -10,11 +10,6 @@ Example ex_trio_client :
   negs (trace trio_client) = [(fname f_tls, 0%N); (fname f_sasl, 1%N); (fname f_bind, 3%N)].
 Proof. vm_compute. repeat split; reflexivity. Qed.
 
-(* the hypothesis of C01_prerequisites_hold_builtin is met by that configuration *)
-Example ex_trio_hyp :
-  forall g, find_space ns_StartTLS (c_feats cfg_trio) = Some g -> f_nec g = ft_starttls_nec /\ f_proh g = ft_starttls_proh.
-Proof. intros g E. vm_compute in E. inversion E. split; reflexivity. Qed.
-
 (* the same on the receiving side: three lists written, three selections run *)
 Example ex_trio_server :
   r_class trio_server = ROk /\ r_bits trio_server = 15%N /\
@@ -74,3 +69,24 @@ Example ex_tee_first :
   length (negs (trace (run (cfg_tee true) 0 [hdr; mkItem false (PFeatures []); hdr; mkItem false (PFeatures [])] []
                            [mkO st_Secure true false] [ft_starttls_space]))) = 1.
 Proof. vm_compute. split; reflexivity. Qed.
+
+(* XEP-0288 bidi as shipped in s2s/bidi.go: advertised under one name space,
+   selected by an element in another one; the receiving side looks selections up
+   by name space, so it refuses the selection the initiating side of the same
+   library sends (reported in design/C01.md; not a violation of C01: what was
+   selected is, literally, not what was advertised) *)
+Definition f_bidi : feature := mkF ft_bidi_space ft_bidi_local ft_bidi_nec ft_bidi_proh ft_bidi_negotiable KAbstract false false.
+Example ex_bidi_refused :
+  let r := run (mkCfg [f_bidi] false false true (str "example.net") None false) (N.lor st_Received st_Secure)
+               [hdr; mkItem false (PElem ns_bidi_select ft_bidi_local)] [] [] [] in
+  r_class r = RErr EPolicy /\ negs (trace r) = [] /\
+  map raw (trace r) = [RIn hdr; ROut RWHeader; RList (fname f_bidi); ROut (RWFeatures [fname f_bidi] true);
+                       RIn (mkItem false (PElem ns_bidi_select ft_bidi_local))].
+Proof. vm_compute. repeat split; reflexivity. Qed.
+
+(* the witness of C01_established_literal_refuted: established with Authn|Ready,
+   only a ran, b (required, needs Authn) was advertised and is eligible now *)
+Example ex_w3 :
+  r_class w3_run = ROk /\ r_bits w3_run = 6%N /\ negs (trace w3_run) = [((xa, str "a"), 0%N)] /\
+  q_advreq (mon_of cfg_w3 0 w3_run) = [fb_authn] /\ q_cache (mon_of cfg_w3 0 w3_run) = [(false, mkF xa (str "a") 0 0 true KAbstract false false)].
+Proof. vm_compute. repeat split; reflexivity. Qed.
